@@ -18,21 +18,27 @@ from harness.core import s2n
 GEN = []
 
 MANIFEST = dict(
-    text='Machine-checked (Coq): for ALL byte strings and both values of final the detector model equals an independently '
-         'written CSS 2.1 section 4.4 prefix table (byte-class abstraction proved sound, then exhaustive vm_compute over every prefix '
-         'of length <= 4 over 11 classes, plus a scan lemma for the @charset name); an answer given before the end of input is never '
-         'revised by any extension (bytes and text detector, @charset rewrite); the incremental decoder/encoder, stream writer and '
-         'stream reader models give, for every partition into chunks (induction over the chunk list), the result of feeding the '
-         'whole input at once, for any underlying codec satisfying the stated splitting hypotheses (Section variables), which are '
-         'proved for the concrete take-based UTF-8/16/32, latin-1 and ascii decoders; character-level round trips of the UTF family '
-         'by exhaustive vm_compute over all code points. The model is tied to cssutils/codec.py by differential runs of the '
-         'extracted model on (data, encoding, force, partition) cases: all cut-point subsets of short inputs, cuts inside BOM, '
-         '@charset rule and multi-byte characters. Round trips over the 30-encoding list and stdlib alias resolution are '
-         'covered by search/correspondence only.',
+    text='Machine-checked (Coq 8.16, every theorem closed under the global context): for ALL byte strings and both values of final '
+         'the detector model equals an independently written CSS 2.1 section 4.4 prefix table (first-four-bytes and byte-class '
+         'abstractions proved sound, then exhaustive vm_compute over every prefix of length <= 4 over 11 classes, plus a relational '
+         'spec of the @charset name scan); an answer given before the end of input is never revised by any extension (byte detector, '
+         'text detector, @charset rewrite); the incremental decoder, incremental encoder and stream writer give, for every partition '
+         'into chunks (induction over the chunk list), the result of the whole input in one call - for ANY underlying codec whose '
+         'incremental functions split (Section hypotheses), and unconditionally for the model\'s concrete UTF-8 / UTF-8-SIG / '
+         'UTF-16 / UTF-32 (BOM, LE, BE) / latin-1 / ascii codecs, for which the hypotheses are proved; one final call of the '
+         'incremental encoder is encode(), of the decoder is decode() where the stdlib\'s stateless and incremental decoders agree; '
+         'round trip decode(encode(t, g), g) for all texts and the ten codecs, auto-detected for the UTF-8 and UTF-32 BOMs '
+         '(characters: exhaustive vm_compute over all 1 114 112 code points per codec). Refuted and recorded: stream writer vs '
+         'encode() when the stream ends while the charset question is open; the pinned detector at FF FE. The model is tied to '
+         'cssutils/codec.py by differential runs of the extracted model on (data, encoding, force, partition) cases: all cut-point '
+         'subsets of short inputs, all 2-cuts and random multi-cuts of longer ones, cuts inside BOM, @charset rule and multi-byte '
+         'characters. The stream reader, round trips over the 30-encoding list, auto-detected round trips through UTF-16 BOM / '
+         '@charset rule and stdlib alias resolution are covered by correspondence / search only.',
     note='Trusted: Coq kernel + vm_compute; ExtrOcamlBasic extraction + OCaml driver; hand model of codec.py validated by '
          'correspondence on every run (not translated); the concrete models of the stdlib UTF-8/16/32, latin-1, ascii codecs and of '
          'codecs.StreamReader.read (validated by the same runs); alias table copied from encodings.aliases and compared with '
-         'codecs.lookup on every run; only errors="strict" is modelled. Models the tree with fixes/C07-*.patch applied.',
+         'codecs.lookup on every run; only errors="strict" is modelled; encoding names are ASCII. Models the tree with '
+         'fixes/C07-*.patch applied. No axioms.',
     design='7/C07')
 
 PREFIX = '@charset "'
@@ -351,7 +357,7 @@ KNOWN_PRED = {
     # the charset question is open is never delivered when the stream ends there
     'C07-stream-withholds-undecided': _stream_undecided,
     # fixed ones (listed for documentation; status "fixed" suppresses nothing)
-    'C07-utf16-bom-at-end': lambda kind, case, detail: bytes(case.get('data', [])[:3]) in (b'\xff\xfe', b'\xff\xfe\x00'),
+    'C07-utf16-bom-at-end': lambda kind, case, detail: bytes(case.get('data', [])) in (b'\xff\xfe', b'\xff\xfe\x00'),
     'C07-encoder-str-for-bytes': lambda kind, case, detail: kind == 'chunk-type',
     'C07-encode-unterminated-charset': lambda kind, case, detail: case.get('encoding') is None and isinstance(case.get('text'), str)
     and case['text'].startswith(PREFIX) and '"' not in case['text'][len(PREFIX):],
@@ -363,25 +369,44 @@ KNOWN_PRED = {
 # --------------------------------------------------------------------------
 
 class Batch:
-    """collects model cases with a callback receiving the model's answer"""
+    """collects model cases with a callback receiving the model's answer;
+    runs them through the extracted model whenever LIMIT have accumulated"""
+    LIMIT = 150000
 
-    def __init__(self):
-        self.cases, self.cbs = [], []
+    def __init__(self, ctx):
+        self.ctx, self.cases, self.cbs, self.total, self.complained = ctx, [], [], 0, False
 
     def add(self, flat, cb):
         self.cases.append(flat)
         self.cbs.append(cb)
+        if len(self.cases) >= self.LIMIT:
+            self.flush()
 
-    def flush(self, ctx):
+    def flush(self):
+        ctx = self.ctx
         if not ctx.model.available:
-            ctx.broken.append(('correspondence', 'extracted model not available'))
-            return 0
-        outs = ctx.model.run(self.cases)
-        for o, cb in zip(outs, self.cbs):
-            cb(o)
-        n = len(self.cases)
+            if not self.complained:
+                ctx.broken.append(('correspondence', 'extracted model not available'))
+                self.complained = True
+        else:
+            outs = ctx.model.run(self.cases)
+            for o, cb in zip(outs, self.cbs):
+                cb(o)
+            self.total += len(self.cases)
         self.cases, self.cbs = [], []
-        return n
+        return self.total
+
+
+def disagree(ctx, what, case, impl, model):
+    """a model/implementation difference; inside the class of a finding that
+    is listed with status "known" it is that finding again, not a broken tie
+    (entries with status "fixed" are not consulted: nothing is suppressed)"""
+    for k in ctx.known:
+        pred = KNOWN_PRED.get(k['id'])
+        if pred is not None and pred('model-disagreement', case, ''):
+            ctx.known_hits[k['id']] = ctx.known_hits.get(k['id'], 0) + 1
+            return
+    ctx.disagree(what, case, impl, model)
 
 
 def crash(ctx, what, case, err):
@@ -415,7 +440,7 @@ def compare(ctx, stats, what, case, impl_outs, impl_err, group=None):
         elif isinstance(impl_err, str):
             pass   # reported by crash() as a violation
         else:
-            ctx.disagree(what, case, {'outs': want[:6], 'err': impl_err}, {'outs': (outs or [])[:6], 'err': err})
+            disagree(ctx, what, case, {'outs': want[:6], 'err': impl_err}, {'outs': (outs or [])[:6], 'err': err})
     return cb
 
 
@@ -496,7 +521,7 @@ def detect_cb(ctx, stats, case, got, what='detect_str'):
         if o == want:
             stats[what + '_agree'] = stats.get(what + '_agree', 0) + 1
         else:
-            ctx.disagree(what, case, want[:40], (o or [])[:40])
+            disagree(ctx, what, case, want[:40], (o or [])[:40])
     return cb
 
 
@@ -797,30 +822,30 @@ def run(ctx):
     impl.reset()
     quick = ctx.tier == 'quick'
     stats = {}
-    batch = Batch()
+    batch = Batch(ctx)
     ctx.cov['rule'] = ('detector: every prefix of length <= 4 over the 11 byte classes x final, plus byte soups; codec classes: '
                        '(data, encoding name, force) x partitions - all cut-point subsets for inputs up to %d units, all 2-cuts, '
                        'random multi-cuts with empty chunks and unit-by-unit for longer ones; data = encodings of texts with complete / '
                        'partial / absent charset rules in ten encodings, BOM variants, truncations, byte soups; round trips over 30 '
                        'encodings; distinct = distinct (entry point, data, encoding, force, partition); non-trivial = more than one chunk'
-                       % (7 if quick else 10))
+                       % (9 if quick else 11))
     detector_sweep(ctx, batch, stats)
-    text_helpers(ctx, batch, stats, 200 if quick else 3000)
+    text_helpers(ctx, batch, stats, 200 if quick else 12000)
     lookup_table(ctx, batch, stats)
     if quick:
-        decoder_cases(ctx, batch, stats, 260, 7, 6)
-        encoder_cases(ctx, batch, stats, 220, 7, 6)
-        nrt = roundtrip(ctx, 40)
-        iter_methods(ctx, 60)
+        decoder_cases(ctx, batch, stats, 1500, 9, 8)
+        encoder_cases(ctx, batch, stats, 1200, 9, 8)
+        nrt = roundtrip(ctx, 120)
+        iter_methods(ctx, 200)
     else:
-        decoder_cases(ctx, batch, stats, 2500, 10, 20)
-        encoder_cases(ctx, batch, stats, 2000, 10, 20)
-        nrt = roundtrip(ctx, 600)
-        iter_methods(ctx, 1000)
+        decoder_cases(ctx, batch, stats, 24000, 11, 20)
+        encoder_cases(ctx, batch, stats, 20000, 11, 20)
+        nrt = roundtrip(ctx, 2400)
+        iter_methods(ctx, 4000)
     ctx.extra['roundtrip_pairs'] = nrt
     ctx.sample({'op': 'incdec', 'data': list('@charset "x";\xe9'.encode('utf-16')), 'chunks': 'every cut-point subset'})
     ctx.sample({'op': 'detect_str', 'data': [0xFF, 0xFE, 0x00], 'final': True})
-    n = batch.flush(ctx)
+    n = batch.flush()
     ctx.extra['correspondence'] = dict(stats, model_cases=n)
 
 
@@ -846,7 +871,15 @@ def replay(path):
     elif op == 'sreader':
         print('now:', impl_sreader([[bytes(c) for c in r] for r in case['reads']], enc, force), 'one-shot:', impl_decode(bytes(case['data']), enc, force))
     elif op in ('encode', 'roundtrip'):
-        print('now:', impl_encode(case['text'], enc))
+        o, e = impl_encode(case['text'], enc)
+        print('now:', (o, e))
+        if op == 'roundtrip' and e is None:
+            print('decode with the encoding given:', impl_decode(o[0], enc, True), 'auto-detected:', impl_decode(o[0], None, True),
+                  'expected:', spec_rewrite(case['text'], enc))
+    elif op in ('iterdecode',):
+        print('now:', impl_incdec([bytes(c) for c in case['chunks']] + [b''], enc, True), 'one-shot:', impl_decode(bytes(case['data']), enc, True))
+    elif op in ('iterencode',):
+        print('now:', impl_incenc(case['chunks'] + [''], enc), 'one-shot:', impl_encode(case['text'], enc))
     elif op == 'incenc':
         print('now:', impl_incenc(case['chunks'], enc), 'one-shot:', impl_encode(case['text'], enc))
     elif op == 'swriter':
